@@ -20,9 +20,57 @@ def run_rules(ctx, rule_names):
             continue
         mod = registry.rule_module(rn)
         insts = mod.run(ctx)
+        _opacity_downgrade(ctx, rn, insts)
         ctx._rule_cache[rn] = insts
         out[rn] = insts
     return out
+
+
+# rules whose violations state that an expected write is ABSENT ("never given a value", "not mirrored",
+# "index not updated"): when the function - or a package function it reaches - writes attributes under names
+# computed at run time, the absence cannot be established from the source
+ABSENCE_RULES = {'R2', 'R3', 'R7'}
+
+
+def _dynamic_writes(ctx, f):
+    """setattr(obj, <non-constant name>, v) on a package object (not a pjs asset) reachable from f."""
+    import ast
+    from .core import own_nodes, PJS
+    cache = ctx.__dict__.setdefault('_dynw', {})
+    if f.qname in cache:
+        return cache[f.qname]
+    out = []
+    for g in ctx.an.reachable([f]).values():
+        env = ctx.prog.env(g)
+        for n in own_nodes(g.node):
+            if isinstance(n, ast.Call) and isinstance(n.func, ast.Name) and n.func.id == 'setattr' and len(n.args) == 3 \
+                    and not isinstance(n.args[1], ast.Constant):
+                try:
+                    t = env.type_of(n.args[0])
+                except Exception:
+                    t = ('unk',)
+                if t != PJS:
+                    out.append((g, n))
+    cache[f.qname] = out
+    return out
+
+
+def _opacity_downgrade(ctx, rn, insts):
+    if rn not in ABSENCE_RULES:
+        return
+    for i in insts:
+        if i.verdict != 'violation':
+            continue
+        top = i.func
+        if not ctx.prog.has_func(top):
+            continue
+        dw = _dynamic_writes(ctx, ctx.prog.func(top))
+        if dw:
+            g, n = dw[0]
+            i.verdict = 'unproven'
+            i.msg = (f"[not decided: {g.short}:{n.lineno} writes attributes under a name computed at run time "
+                     f"(setattr with a non-constant name), reachable from {top}; an absent update cannot be "
+                     f"established from the source] " + i.msg)
 
 
 def verdicts(pid: str, repo: str):
